@@ -39,6 +39,7 @@ func init() {
 			eng(kind, seq.AnyDom(0, 4), 15000, 300000),
 			eng(kind, seq.AnyDom(1, 5), 15000, 300000),
 			eng(kind, seq.AnyDom(2, 3), 15000, 300000),
+			eng(kind, seq.AnyDom(3, 3), 10000, 200000),
 		)
 	}
 	p.Repro = map[string]func() (bool, string){
